@@ -139,7 +139,8 @@ func storeScenario(name string, progs [][]storeIn) c29sc {
 			txs := map[int]*dummyTx{}
 			get := func(id int) *dummyTx {
 				if txs[id] == nil {
-					txs[id] = &dummyTx{id: id}
+					// a real (finished-able) transaction: storing over an unfinished one may finish it
+					txs[id] = &dummyTx{Transaction: transactions.NewTransactionBase(func() {}), id: id}
 				}
 				return txs[id]
 			}
